@@ -16,10 +16,12 @@
 
 use crate::fw::{ctx, par_cases, Caught};
 use crate::gen::circuit::{circ_hash, circ_json, gen_circuit, to_quizx, CircParams, PhPool};
+use crate::gen::diagram::{DDesc, DScalar, DV};
 use crate::gen::prng::Rng;
 use crate::gen::tdiag::{self, add_outputs, gen_closed, TFam};
 use crate::oracle::eval::{self, Diag, EvalError, EK, VK};
 use crate::oracle::ring::{r_of_scalar, scalar_is_approx, Num, R};
+use crate::oracle::sim::{Circ, G};
 use crate::snap::{eval_snap, graph_json, snap, snap_json, vk, Snap, Tens, FLOAT_TOL};
 use quizx::decompose::{
     verif_apply_decomp, BssTOnlyDriver, BssWithCatsDriver, Decomp, Decomposer, Driver, DynamicTDriver, SherlockDriver, SimpFunc,
@@ -816,9 +818,52 @@ fn closed_case(family: &'static str, fam: TFam, index: u64, r: &mut Rng, max_t: 
     let nontrivial = tc >= 1 && d.num_spiders() >= 2;
     c.case(family, if nontrivial { Some(d.hash()) } else { None });
     c.evals(runs.saturating_sub(1));
-    c.count(&format!("tcount:{tc:02}"), 1);
+    c.count(&format!("tcount[{}]:{tc:02}", if family == "circuit-plugged" { "circuit-plugged" } else { "closed-generated" }), 1);
     c.maximum("max_tcount", tc as u64);
     c.sample_n(5, || json!({"family": family, "index": index, "diagram": desc, "tcount": tc, "runs": runs}));
+}
+
+/// Bring the number of T-like gates of a circuit to `target`: surplus T-like gates become
+/// their Clifford neighbours, missing ones are inserted at random places.
+fn shape_tcount(r: &mut Rng, circ: &mut Circ, target: usize) {
+    let weight = |g: &G| -> usize {
+        match g {
+            G::T(_) | G::Tdg(_) => 1,
+            G::Rz(_, p) | G::Rx(_, p) | G::Pp(_, p) if p.1 == 4 => 1,
+            G::Ccz(..) | G::Ccx(..) => 7,
+            _ => 0,
+        }
+    };
+    loop {
+        let total: usize = circ.gates.iter().map(weight).sum();
+        if total <= target {
+            break;
+        }
+        let idx: Vec<usize> = (0..circ.gates.len()).filter(|&i| weight(&circ.gates[i]) > 0).collect();
+        let i = *r.pick(&idx);
+        circ.gates[i] = match circ.gates[i].clone() {
+            G::T(q) | G::Tdg(q) => G::S(q),
+            G::Rz(q, _) => G::Rz(q, (1, 2)),
+            G::Rx(q, _) => G::Rx(q, (-1, 2)),
+            G::Pp(qs, _) => G::Pp(qs, (1, 2)),
+            G::Ccz(a, b, _) | G::Ccx(a, b, _) => G::Cz(a, b),
+            other => other,
+        };
+    }
+    let mut total: usize = circ.gates.iter().map(weight).sum();
+    while total < target && circ.n > 0 {
+        let pos = r.below(circ.gates.len() + 1);
+        let q = r.below(circ.n);
+        let g = match r.below(5) {
+            0 => G::T(q),
+            1 => G::Tdg(q),
+            2 => G::Rz(q, *r.pick(&[(3, 4), (-3, 4)])),
+            3 => G::Rx(q, *r.pick(&tdiag::T_PHASES)),
+            _ => G::T(q),
+        };
+        circ.gates.insert(pos, g);
+        total += 1;
+    }
 }
 
 /// plugged Clifford+T circuits: only with a simplification level enabled
@@ -840,7 +885,9 @@ fn circuit_case(family: &'static str, index: u64, r: &mut Rng, max_t: usize, max
             ancilla: false,
             measure: false,
         };
-        let circ = gen_circuit(r, &p);
+        let mut circ = gen_circuit(r, &p);
+        let target = 1 + r.below(max_t.max(1));
+        shape_tcount(r, &mut circ, target);
         let qc = to_quizx(&circ);
         let states = [BasisElem::Z0, BasisElem::Z1, BasisElem::X0, BasisElem::X1];
         let ins: Vec<BasisElem> = (0..circ.n).map(|_| *r.pick(&states)).collect();
@@ -881,7 +928,7 @@ fn circuit_case(family: &'static str, index: u64, r: &mut Rng, max_t: usize, max
         let h = circ_hash(&circ) ^ crate::gen::prng::hash_str(&format!("{ins:?}{outs:?}"));
         c.case(family, if tc >= 1 { Some(h) } else { None });
         c.evals(runs.saturating_sub(1));
-        c.count(&format!("tcount:{tc:02}"), 1);
+        c.count(&format!("tcount[{}]:{tc:02}", if family == "circuit-plugged" { "circuit-plugged" } else { "closed-generated" }), 1);
         c.sample_n(6, || json!({"family": family, "index": index, "case": desc, "tcount": tc, "runs": runs}));
         return;
     }
@@ -994,26 +1041,31 @@ fn direct_candidates<G: GraphLike>(r: &mut Rng, g: &G, closed: bool) -> Vec<(Dec
 }
 
 fn direct_case(family: &'static str, index: u64, r: &mut Rng, max_t: usize, max_sp: usize) {
-    let c = ctx();
     let fam = *r.pick(&tdiag::ALL_FAMS);
     let mut d = gen_closed(r, fam, max_t, max_sp);
     let closed = !(r.chance(0.35) && add_outputs(&mut d, r, 3));
-    let desc = d.to_json();
     let scr = if r.chance(0.3) { Some(r.next_u64()) } else { None };
     let (g, _) = d.build::<quizx::vec_graph::Graph>(scr);
-    let pre = match snap(&g) {
+    let cands = direct_candidates(r, &g, closed);
+    direct_check(family, index, &d, &g, cands);
+}
+
+/// Apply each candidate step to `g` through `verif_apply_decomp` and check the identity.
+fn direct_check<G: GraphLike>(family: &'static str, index: u64, d: &DDesc, g: &G, cands: Vec<(Decomp, &'static str)>) {
+    let c = ctx();
+    let desc = d.to_json();
+    let pre = match snap(g) {
         Ok(s) => s,
         Err(m) => {
             c.harness_error(&format!("unsnappable generated host: {m}"));
             return;
         }
     };
-    let cands = direct_candidates(r, &g, closed);
     let mut n = 0u64;
     for (dec, tag) in cands {
         let (kind, vs) = parse_decomp(&dec.to_string());
         let key = format!("{}[{tag}]", step_key(&kind, &vs, &pre.diag));
-        let res = guard(|| verif_apply_decomp(&g, &dec));
+        let res = guard(|| verif_apply_decomp(g, &dec));
         n += 1;
         c.count(&format!("direct:{key}"), 1);
         match res {
@@ -1053,7 +1105,7 @@ fn direct_case(family: &'static str, index: u64, r: &mut Rng, max_t: usize, max_
         }
     }
     if n > 0 {
-        let tc = tdiag::tcount(&d);
+        let tc = tdiag::tcount(d);
         c.case(family, if tc >= 1 { Some(d.hash() ^ 0xD1) } else { None });
         c.evals(n - 1);
     }
@@ -1071,10 +1123,17 @@ fn saved_case(family: &'static str, index: u64, r: &mut Rng, max_t: usize, max_s
         c.skipped();
         return;
     }
-    let desc = d.to_json();
     let scr = if r.chance(0.3) { Some(r.next_u64()) } else { None };
     let (g, _) = d.build::<quizx::vec_graph::Graph>(scr);
-    let expected = match crate::snap::eval_graph(&g) {
+    saved_check(family, index, &d, &g);
+}
+
+/// Saved-terms clause on one graph-like diagram with outputs: BSS-type drivers x simp
+/// levels, `with_save(true)`, sequential.
+fn saved_check<G: GraphLike>(family: &'static str, index: u64, d: &DDesc, g: &G) {
+    let c = ctx();
+    let desc = d.to_json();
+    let expected = match crate::snap::eval_graph(g) {
         Ok(t) => t,
         Err(EvalError::TooWide(_)) => {
             c.skipped();
@@ -1092,7 +1151,7 @@ fn saved_case(family: &'static str, index: u64, r: &mut Rng, max_t: usize, max_s
         for simp in [SimpFunc::NoSimp, SimpFunc::CliffordSimp, SimpFunc::FullSimp] {
             let cfg = Cfg { drv: drv.clone(), simp, split: false };
             let res = guard(|| {
-                let mut dc = Decomposer::new(&g);
+                let mut dc = Decomposer::new(g);
                 dc.with_simp(simp).with_save(true);
                 decompose_with(&mut dc, drv, false);
                 (dc.done.clone(), dc.nterms)
@@ -1193,7 +1252,7 @@ fn saved_case(family: &'static str, index: u64, r: &mut Rng, max_t: usize, max_s
             }
         }
     }
-    let tc = tdiag::tcount(&d);
+    let tc = tdiag::tcount(d);
     c.case(family, if tc >= 1 { Some(d.hash() ^ 0x5A) } else { None });
     c.evals(runs.saturating_sub(1));
     c.count("saved:cases", 1);
@@ -1201,6 +1260,72 @@ fn saved_case(family: &'static str, index: u64, r: &mut Rng, max_t: usize, max_s
         c.count("saved:cases_with_hadamard_boundary_edge", 1);
     }
     c.count(&format!("saved:outputs={}", d.outputs.len()), 1);
+}
+
+// ------------------------------------------------------------------------------------
+// deterministic grid: one cat attached to outputs (steps + saved terms)
+// ------------------------------------------------------------------------------------
+
+/// hub phase {0, pi} x cat size {3,4,5,6} x output on T neighbour {first, second, last} x
+/// boundary edge {plain, Hadamard} x T-phase pattern {all pi/4, mixed} x extra edges among the
+/// T spiders {no, yes} x a second output {no, yes}
+pub const CAT_GRID: usize = 2 * 4 * 3 * 2 * 2 * 2 * 2;
+
+fn cat_grid_case(family: &'static str, index: u64) {
+    let mut i = index as usize;
+    let mut take = |n: usize| {
+        let x = i % n;
+        i /= n;
+        x
+    };
+    let hub_pi = take(2) == 1;
+    let k = 3 + take(4);
+    let pos = take(3);
+    let bh = take(2) == 1;
+    let mixed = take(2) == 1;
+    let extra = take(2) == 1;
+    let second = take(2) == 1;
+    let mut verts = vec![];
+    let mut edges = vec![];
+    for j in 0..k {
+        let ph = if mixed { tdiag::T_PHASES[j % 4] } else { (1, 4) };
+        verts.push(DV { kind: VK::Z, ph, vars: vec![] });
+    }
+    let hub = verts.len();
+    verts.push(DV { kind: VK::Z, ph: if hub_pi { (1, 1) } else { (0, 1) }, vars: vec![] });
+    for j in 0..k {
+        edges.push((j, hub, EK::H));
+    }
+    if extra {
+        edges.push((0, 1, EK::H));
+        edges.push((1, 2, EK::H));
+    }
+    let mut outputs = vec![];
+    let at = [0, 1, k - 1][pos];
+    let b = verts.len();
+    verts.push(DV { kind: VK::B, ph: (0, 1), vars: vec![] });
+    edges.push((at, b, if bh { EK::H } else { EK::N }));
+    outputs.push(b);
+    if second {
+        let at2 = (at + 1) % k;
+        let b2 = verts.len();
+        verts.push(DV { kind: VK::B, ph: (0, 1), vars: vec![] });
+        edges.push((at2, b2, EK::N));
+        outputs.push(b2);
+    }
+    let d = DDesc { verts, edges, inputs: vec![], outputs, scalar: DScalar { coeffs: [1, 0, 0, 0], pow: 0 } };
+    let (g, ids) = d.build::<quizx::vec_graph::Graph>(None);
+    // the list in neighbour order, and rotated so that every T spider is "first" once
+    let mut cands: Vec<(Decomp, &'static str)> = vec![];
+    for rot in 0..k {
+        let mut l = vec![ids[hub]];
+        for j in 0..k {
+            l.push(ids[(j + rot) % k]);
+        }
+        cands.push((Decomp::CatDecomp(l), "grid"));
+    }
+    direct_check(family, index, &d, &g, cands);
+    saved_check(family, index, &d, &g);
 }
 
 // ------------------------------------------------------------------------------------
@@ -1281,6 +1406,11 @@ fn judge_sanitizers(v: &Value) {
 // run
 // ------------------------------------------------------------------------------------
 
+/// remember when a family started (seconds since the start of the run)
+fn timed(log: &mut Vec<(&'static str, f64)>, family: &'static str) {
+    log.push((family, ctx().start.elapsed().as_secs_f64()));
+}
+
 pub fn run() {
     let c = ctx();
     if let Err(e) = self_test() {
@@ -1306,27 +1436,45 @@ pub fn run() {
         None
     };
 
+    let mut fam_wall: Vec<(&'static str, f64)> = vec![];
     let (max_t, max_sp) = t.pick((7usize, 9usize), (12usize, 13usize));
     let plan = t.pick(Plan { full_sweep: 0.15, reps: 2 }, Plan { full_sweep: 0.25, reps: 3 });
-    let n = t.pick(110usize, 700usize);
+    let n = t.pick(110usize, 1200usize);
 
+    // deterministic grid first, so that its small diagrams are the recorded witnesses
+    timed(&mut fam_wall, "open-cat-grid");
+    par_cases("open-cat-grid", CAT_GRID, move |_r, i| cat_grid_case("open-cat-grid", i));
+
+    timed(&mut fam_wall, "closed-random");
     par_cases("closed-random", n, move |r, i| closed_case("closed-random", TFam::Random, i, r, max_t, max_sp, plan));
+    timed(&mut fam_wall, "closed-cat-rich");
     par_cases("closed-cat-rich", n, move |r, i| closed_case("closed-cat-rich", TFam::Cats, i, r, max_t, max_sp, plan));
+    timed(&mut fam_wall, "closed-gadget-rich");
     par_cases("closed-gadget-rich", n, move |r, i| closed_case("closed-gadget-rich", TFam::Gadgets, i, r, max_t, max_sp, plan));
+    timed(&mut fam_wall, "closed-tpair-rich");
     par_cases("closed-tpair-rich", n, move |r, i| closed_case("closed-tpair-rich", TFam::TPair, i, r, max_t, max_sp, plan));
+    timed(&mut fam_wall, "closed-t-only");
     par_cases("closed-t-only", n, move |r, i| closed_case("closed-t-only", TFam::TOnly, i, r, max_t, max_sp, plan));
+    timed(&mut fam_wall, "closed-multi-component");
     par_cases("closed-multi-component", n, move |r, i| closed_case("closed-multi-component", TFam::Multi, i, r, max_t, max_sp, plan));
-    let (cq, cd) = t.pick((4usize, 24usize), (5usize, 40usize));
-    par_cases("circuit-plugged", n, move |r, i| circuit_case("circuit-plugged", i, r, max_t, cq, cd, plan));
+    let (cq, cd) = t.pick((5usize, 40usize), (6usize, 60usize));
+    timed(&mut fam_wall, "circuit-plugged");
+    par_cases("circuit-plugged", 2 * n, move |r, i| circuit_case("circuit-plugged", i, r, max_t, cq, cd, plan));
     process_events(collect_events(None), "closed-families(leftover)", 0);
 
-    let nd = t.pick(4000usize, 60_000usize);
+    let nd = t.pick(4000usize, 100_000usize);
+    timed(&mut fam_wall, "direct-steps");
     par_cases("direct-steps", nd, move |r, i| direct_case("direct-steps", i, r, max_t.max(8), max_sp));
 
-    let ns = t.pick(500usize, 6000usize);
+    let ns = t.pick(500usize, 10_000usize);
+    timed(&mut fam_wall, "saved-terms");
     par_cases("saved-terms", ns, move |r, i| saved_case("saved-terms", i, r, max_t.min(9), max_sp));
     process_events(collect_events(None), "saved-terms(leftover)", 0);
     quizx::verif::set_step_log(false);
+
+    timed(&mut fam_wall, "end");
+    let walls: serde_json::Map<String, Value> = fam_wall.windows(2).map(|w| (w[0].0.to_string(), json!(((w[1].1 - w[0].1) * 10.0).round() / 10.0))).collect();
+    c.extra("family_wall_s", Value::Object(walls));
 
     // evidence: steps per kind
     let steps = with_steps(|s| {
